@@ -155,6 +155,10 @@ class MachineDriver:
             out.append(tuple(chain))
         return tuple(sorted(out))
 
+    def modes_fp(self):
+        return tuple(sorted((n, bool(md.active), bool(md.starting), bool(md.stopping)) for n, md in self.m.modes.items()
+                            if md.active or md.starting or md.stopping))
+
     def handler_fp(self):
         out = []
         for ev, lst in self.m.events.registered_handlers.items():
